@@ -118,6 +118,15 @@ class TranslatorBase(object):
             (self.globals_s if lv.index is None else self.globals_a)[lv.name + '__fin'] = BOOL
             self.emit(Assign(dst, src))
 
+    def anchor(self, name, ns=None):
+        """named ghost anchor (contracts attach ghost code with S.ghost(name, ...))"""
+        from ir import Ghost
+        g = Ghost(name)
+        g.ns = ns if ns is not None else self.namespace()
+        g.fname = self.frame.fname
+        g.custom = True
+        self.emit(g)
+
     def obligation(self, cond, label, kind):
         cond = implies(self.guard, cond)
         if cond.is_const() and cond.cval():
